@@ -78,6 +78,9 @@ theorem BoundSet_exact (v : Version) : BoundSet.rs_exact v = BoundSet.exact v :=
 
 theorem n_eq (a b : Nat) : REq.eq a b = (a == b) := rfl
 
+-- so that a helper function someone extracts (translated with `@[simp]`) is normalised like inline code
+attribute [simp] n_eq v_le v_lt v_eq
+
 theorem BoundSet_satisfies (s : BoundSet) (v : Version) : s.rs_satisfies v = s.satisfies v := by
   obtain ⟨u, l⟩ := s
   unfold BoundSet.rs_satisfies BoundSet.satisfies BoundSet.within BoundSet.gate sameTuple
@@ -98,6 +101,8 @@ theorem BoundSet_allows_all (s o : BoundSet) : s.rs_allows_all o = s.allowsAll o
 
 theorem BoundSet_allows_any (s o : BoundSet) : s.rs_allows_any o = s.allowsAny o := by
   simp only [BoundSet.rs_allows_any, BoundSet.allowsAny, b_lt, id_run, id_pure]
+  -- whatever shape the two tests are written in: decide by cases on their outcomes
+  try (cases h1 : o.upper.lt s.lower <;> cases h2 : s.upper.lt o.lower <;> simp_all)
 
 theorem BoundSet_intersect (s o : BoundSet) : s.rs_intersect o = s.intersect o := by
   simp [BoundSet.rs_intersect, BoundSet.intersect, b_max, b_min, BoundSet_new]
